@@ -293,7 +293,7 @@ pub fn chronology(case: &Case, h: &Hist, ag: &Agenda) -> Vec<Violation> {
     v
 }
 
-fn step_until_target(case: &Case, c: &CmdRec) -> Option<T> {
+pub fn step_until_target(case: &Case, c: &CmdRec) -> Option<T> {
     // "StepUntil { when: Rel(123) }" | "... Abs(123) }" | "... Past(5) }"
     let inner = c.text.split("when: ").nth(1)?;
     let (kind, rest) = inner.split_once('(')?;
@@ -301,6 +301,10 @@ fn step_until_target(case: &Case, c: &CmdRec) -> Option<T> {
     match kind {
         "Rel" => Some(add_ns(c.t_before, num)),
         "Abs" => Some(crate::node::tt_ns(case.cfg.t0 + num)),
+        "Past" => {
+            let total = c.t_before.0 as i128 * 1_000_000_000 + c.t_before.1 as i128 - num as i128;
+            Some((total.div_euclid(1_000_000_000) as i64, total.rem_euclid(1_000_000_000) as u32))
+        }
         _ => None,
     }
 }
